@@ -47,7 +47,8 @@ def bounds(tier):
             "all answer sequences; scripted accuracy: %d arrangements x 3 labelings x %d accuracy "
             "sequences x all RNG answers" % ((6, 39) if tier == "quick" else (24, 120)) + ("; + 120 x 3 x 3 x {1,2} configs with 4 training rows (cap 3000 "
                                       "executions each)" if tier == "thorough" else ""),
-            "marking": ["WO(4): 3+1 x L(3)", "G(5,2): 4+1 x L(4)", "P(3,{0,1,2}^2) x 26-query batch"],
+            "marking": ["WO(4): 3+1 x L(3)", "G(5,2): 4+1 x L(4)", "G(4,3,zero): 3+1", "G(5,2,zero): 4+1",
+                        "P(3,{0,1,2}^2) x 26-query batch"],
             "prune": "P(4,{0..3} distinct arrangements) x validation pairs x n_iterations 0..2; all 3024 "
             "arrangements of 4 distinct points of {0,1,2}^2 x 7 labelings x 6 validation sets x n_iterations %s"
             % ("1" if tier == "quick" else "1..2")}
@@ -68,6 +69,11 @@ def plan(tier, seed):
         shards.append(("mark", "wo", 4, a, b))
     for a, b in E.chunks(1024, 64):
         shards.append(("mark", "g", 5, 2, False, a, b))
+    # zero weights: non-prototype samples can then have cost 0 and still be conquerors
+    for a, b in E.chunks(729, 100):
+        shards.append(("mark", "g", 4, 3, True, a, b))
+    for a, b in E.chunks(1024, 64):
+        shards.append(("mark", "g", 5, 2, True, a, b))
     for a, b in E.chunks(729, 81):
         shards.append(("mark", "feat", "2d", 3, "euclidean", a, b))
     for pi in range(24):
